@@ -158,8 +158,8 @@ def mapListeners (f : Listener → Option Listener) : List (Nat × Listener) →
     | none => none
     | some l' => (mapListeners f rest).map ((k, l') :: ·)
 
-/-- `ChainTracker::add_block` -/
-def addBlock (t : Tracker) (hdr : Header) (p : Proof) : Tracker × Out :=
+/-- `ChainTracker::do_add_block` (the body of `add_block`) -/
+def doAddBlock (t : Tracker) (hdr : Header) (p : Proof) : Tracker × Out :=
   match maybeFinish t p hdr.hash with
   | none => (t, .panic)
   | some (t1, some e) => (t1, .err e)
@@ -180,10 +180,11 @@ def addBlock (t : Tracker) (hdr : Header) (p : Proof) : Tracker × Out :=
                      headers := t1.tip :: t1.headers.take (maxReorgSize - 1),
                      tip := cur, height := t1.height + 1 }, .ok)
 
-/-- `ChainTracker::remove_block` (after fix b4b3fea: the window is popped after validation).
-Note `tip_block_hash = prev_headers.0.block_hash()`: the hash compared with the streamed block is the
-hash of the *previous* header, as in the code. -/
-def removeBlock (t : Tracker) (p : Proof) (prev : Headers) : Tracker × Out :=
+/-- `ChainTracker::do_remove_block` (after fix b4b3fea: the window is popped after validation).
+`tip_block_hash`, the hash compared with the streamed block, is read from the source by the translator
+(`Gen.Chain.removeExpectsTipHash`): the code as it stands takes the hash of the *previous* header
+(finding F17), the proposed fix the hash of the tip. -/
+def doRemoveBlock (t : Tracker) (p : Proof) (prev : Headers) : Tracker × Out :=
   if t.headers.isEmpty && !t.allowDeep then (t, .err .reorgTooDeep) else
   match t.headers with
   | h0 :: _ =>
@@ -193,7 +194,7 @@ def removeBlock (t : Tracker) (p : Proof) (prev : Headers) : Tracker × Out :=
   | [] => removeCore t p prev
 where
   removeCore (t : Tracker) (p : Proof) (prev : Headers) : Tracker × Out :=
-    match maybeFinish t p prev.hdr.hash with
+    match maybeFinish t p (if removeExpectsTipHash then t.tip.hdr.hash else prev.hdr.hash) with
     | none => (t, .panic)
     | some (t1, some e) => (t1, .err e)
     | some (t1, none) =>
@@ -209,6 +210,23 @@ where
           | some ls =>
             ({ t1 with listeners := ls, ldec := if p.ptype == .external then false else t1.ldec,
                        headers := t1.headers.drop 1, tip := prev, height := t1.height - 1 }, .ok)
+
+/-- `add_block`/`remove_block` wrapper of fix b36e377: `let streamed = self.decode_state.is_some()`
+before the call; if the call returns `Err` and `streamed`, `abort_streamed_block` clears the
+tracker's decode state and tells every listener to drop its `BlockDecodeState`
+(`ChainListener::on_streamed_block_abort`). -/
+def abortIfStreamed (t : Tracker) (r : Tracker × Out) : Tracker × Out :=
+  match r.2 with
+  | .err _ => if t.decoding.isSome then ({ r.1 with decoding := none, ldec := false }, r.2) else r
+  | _ => r
+
+/-- `ChainTracker::add_block` -/
+def addBlock (t : Tracker) (hdr : Header) (p : Proof) : Tracker × Out :=
+  abortIfStreamed t (doAddBlock t hdr p)
+
+/-- `ChainTracker::remove_block` -/
+def removeBlock (t : Tracker) (p : Proof) (prev : Headers) : Tracker × Out :=
+  abortIfStreamed t (doRemoveBlock t p prev)
 
 /-- `block_chunk(hash, 0, whole block)`: the tracker starts a decode state; every monitor creates its
 `BlockDecodeState` and sees `on_block_start` (panics if it still holds one: "saw more than one
